@@ -60,7 +60,12 @@ where
                               // we loop here again
                         }
                         _ => {
-                            break;
+                            // not enough data for a msg with storage header.
+                            // If we didn't detect the storage header yet there might still be
+                            // a (smaller) msg with serial header. So we do try serial below.
+                            if self.detected_storage_header {
+                                break;
+                            }
                         }
                     },
                 }
